@@ -11,6 +11,7 @@ import DimModel.Proofs.C05WFDs
 import DimModel.Proofs.C04String
 import DimModel.Props.C10
 import DimModel.Props.C11
+import DimModel.Proofs.C05Cache
 namespace DimModel
 open Lib
 
@@ -901,4 +902,67 @@ returns a well-formed array, because every result is re-built by `DimArray.__ini
 | `DSV.concatenateDs`                  | `DSV.concatenateDs_wf`          | variables well-formed and plain                                                  |
 -/
 
+end DimModel
+
+/-! ### history independence: the cached `_monotonic` of Axis objects (Lib/AxisCache.lean) -/
+namespace DimModel
+namespace AxisCache
+open Lib
+
+/-- a constructed axis has no cached state -/
+theorem coherent_init (L : List Label) (k : Kind) : (fresh L k).Coherent ∧ Coherent ([] : St) :=
+  ⟨coh_fresh L k, fun _ h => by cases h⟩
+
+/-- the flag copy of `Axis.__getitem__(slice)` is sound: any Python slice (any start / stop / non-zero step, negative
+steps included) of a strictly monotonic label sequence is strictly monotonic -/
+theorem slice_keeps_monotonic (L : List Label) (s e st : Option Int) (ps : List Nat)
+    (h : slicePositions s e st L.length = .ok ps) (hm : isMonotonic L = true) :
+    isMonotonic (sliceLabels L ps) = true :=
+  sliceLabels_monotonic L s e st ps h hm
+
+/-- every public Axis operation keeps every live object coherent (objects rewritten in place, new objects - slices,
+copies, unions - and operands whose flag is filled as a side effect) -/
+theorem coherent_step (s : St) (op : AOp) (hs : Coherent s) : Coherent (step s op).1 :=
+  apply_coherent s (eff s op) hs (eff_coh s op hs)
+
+/-- ... hence after any history -/
+theorem coherent_run (ops : List AOp) : ∀ s : St, Coherent s → Coherent (run s ops).1 := by
+  induction ops with
+  | nil => intro s hs; exact hs
+  | cons op ops ih => intro s hs; exact ih _ (coherent_step s op hs)
+
+/-- the clause: after ANY history from the empty heap, every live object answers `is_monotonic()` like the freshly
+constructed axis with the same labels, and its flag afterwards is the fresh one's -/
+theorem query_history_independent (ops : List AOp) (a : CAxis) (ha : a ∈ (run [] ops).1) :
+    a.isMono.1 = a.forget.isMono.1 ∧ a.isMono.2.forget = a.forget.isMono.2.forget := by
+  have hc : a.Coherent := coherent_run ops [] (fun _ h => by cases h) a ha
+  refine ⟨?_, ?_⟩
+  · rw [isMono_fst a hc, isMono_fst a.forget (Or.inl rfl)]; rfl
+  · rw [isMono_forget, isMono_forget]; rfl
+
+/-- ... and `union` (the only other reader of the flag) of two live objects returns the same labels / the same operand
+as on freshly constructed operands -/
+theorem union_history_independent (ops : List AOp) (i j : Nat) (a b : CAxis)
+    (ha : a ∈ (run [] ops).1) (hb : b ∈ (run [] ops).1) :
+    (unionEff i j a b).new.map CAxis.forget = (unionEff i j a.forget b.forget).new.map CAxis.forget ∧
+    (unionEff i j a b).res = (unionEff i j a.forget b.forget).res :=
+  unionEff_answer i j a b (coherent_run ops [] (fun _ h => by cases h) a ha) (coherent_run ops [] (fun _ h => by cases h) b hb)
+
+/-- why 5b0fd27 was needed: an in-place sort that SETS the flag is incoherent as soon as the sorted labels hold a
+duplicate ([2, 1, 2] -> [1, 2, 2]), and `is_monotonic()` then differs from the fresh axis -/
+theorem sort_sets_true_counterexample (a : CAxis) (h : sortBy Label.le a.labels = [.num 1, .num 2, .num 2]) :
+    ¬ (sortSetsTrue a).Coherent ∧ (sortSetsTrue a).isMono.1 ≠ (sortSetsTrue a).forget.isMono.1 := by
+  have hm : isMonotonic [Label.num 1, Label.num 2, Label.num 2] = false := by decide
+  refine ⟨?_, ?_⟩
+  · intro hc
+    rcases hc with hc | hc
+    · simp [sortSetsTrue] at hc
+    · simp [sortSetsTrue, h, hm] at hc
+  · simp [sortSetsTrue, CAxis.isMono, CAxis.forget, h, hm]
+
+/-- the hypotheses are satisfiable by a non-trivial history: flag filled, copied to a reversed slice, reset by a relabelling -/
+example : (run [] [.construct [.num 1, .num 2, .num 3] .i, .isMonotonic 0, .getSlice 0 none none (some (-1)),
+                   .setItem 0 0 (.num 2) .i, .isMonotonic 0]).1.map (·.mono) = [some false, some true] := by decide
+
+end AxisCache
 end DimModel
